@@ -17,6 +17,8 @@ def main():
         if args and not any(a in name for a in args): continue
         meta=json.load(open(d+'meta.json')) if os.path.exists(d+'meta.json') else json.load(open(d+'meta_agent.json'))
         props=extra or meta.get("checks") or [meta['property']]
+        if meta.get("obsolete") and not args:
+            print("%-12s obsolete: %s"%(name,meta["obsolete"][:150])); continue
         r=sh("git -C %s apply %spatch.diff"%(REPO,d))
         if r.returncode!=0:
             print("%-12s patch does not apply: %s"%(name,r.stderr[:200])); continue
